@@ -128,6 +128,8 @@ pub struct OpInfo {
     pub interruptions: u32,
     /// a successful PUBREC has been delivered (since the last restart)
     pub pubrec_received: bool,
+    /// a PUBREC for this operation was part of a delivery that failed part-way: the engine may or may not have processed it
+    pub pubrec_uncertain: bool,
     /// connection index of the last no-session restart (appearances before it are forgotten)
     pub restart_conn: Option<usize>,
 }
@@ -264,7 +266,7 @@ impl World {
                 self.ops.push(OpInfo {
                     tag: op.tag, kind: op_kind(op), index, spec: op.clone(), submit_step: step.index, submit_time: step.time_ms,
                     submit_state: step.state_before, rejected_at_submit: rejected, entries, completions: Vec::new(), appearances: Vec::new(),
-                    acks: Vec::new(), interruptions: 0, pubrec_received: false, restart_conn: None,
+                    acks: Vec::new(), interruptions: 0, pubrec_received: false, pubrec_uncertain: false, restart_conn: None,
                 });
             }
             Event::Open { deadline_ms } => {
@@ -394,6 +396,7 @@ impl World {
                                     if !op.resolved() {
                                         op.restart_conn = Some(c);
                                         op.pubrec_received = false;
+                                        op.pubrec_uncertain = false;
                                     }
                                 }
                             }
@@ -426,7 +429,7 @@ impl World {
                         if let Some(oi) = target {
                             self.ops[oi].acks.push(AckDelivery { conn: c, step: step.index, time: step.time_ms, kind, packet_id: pid, reason });
                             if kind == "PUBREC" && reason < 0x80 && self.ops[oi].kind == OpKind::Pub2 {
-                                self.ops[oi].pubrec_received = true;
+                                if step.result.is_err() || step.result.is_panic() { self.ops[oi].pubrec_uncertain = true; } else { self.ops[oi].pubrec_received = true; self.ops[oi].pubrec_uncertain = false; }
                             }
                         }
                     }
